@@ -174,7 +174,7 @@ Proof.
   - destruct (bht b <=? 0); [inversion H; subst; repeat split; assumption|].
     destruct (negb (N.eqb (bid b) (ptip_id s))) eqn:T; [inversion H; subst; repeat split; assumption|].
     destruct (pchain s) as [|t [|t2 rest]] eqn:C;
-      try (inversion H; subst; repeat split; try assumption; congruence).
+      try (inversion H; subst; cbn [N.eqb]; repeat split; try assumption; congruence).
     inversion H; subst; clear H. cbn [N.eqb op_event]. split; [|split].
     + cbn [pdb]. rewrite D. reflexivity.
     + cbn [map rev pchain]. rewrite replay_s_app, R. unfold ev_of at 1. cbn [fst snd replay_s map].
@@ -244,7 +244,7 @@ Proof.
   { intros i. rewrite own_rec by reflexivity. apply get_seq_log_at. }
   split; [apply replay_s_replay; exact R|]. split.
   { intros h. split; [apply own_idx; reflexivity|]. apply idx_fact_holds. exact R. }
-  intros st en. rewrite own_range by reflexivity. rewrite map_length. reflexivity.
+  intros st en. rewrite own_range by reflexivity. reflexivity.
 Qed.
 
 (** the main-sequence records under increasing numbers *)
